@@ -286,7 +286,12 @@ def main(tier, seed):
         if bad:
             rep.violation(f["name"], {"why": f["why"], "case": bad[0][0], "native_result": bad[0][1], "script": REPLAY.format(seed=seed)})
         else:
-            rep.violation(f["name"], {"why": f["why"], "solver_output": f["why"]}, found_input=False)
+            # the structural obligations are SUFFICIENT conditions (given deepcopy's contract), not necessary ones: e.g. a correct __deepcopy__ hook
+            # fails S4 although the property holds. Without a failing run of the real copy() the obligation is undecided, not a violation.
+            for o in rep.obligations:
+                if o["status"] == "refuted" and (o["name"].startswith(f["name"].split("[")[0]) and f["name"].split("[")[-1].rstrip("]") in o["name"]):
+                    o["status"] = "unknown"
+                    rep.undecided.append(o["name"] + " :: " + f["why"] + " (sufficient condition not met; the run-time contract of copy() found nothing)")
     if not sfails:
         for case, msgs in bad[:3]:
             rep.violation(f"standin.copy-contract[{case['cls']}]", {"case": case, "native_result": msgs, "script": REPLAY.format(seed=seed)})
